@@ -123,7 +123,7 @@ def run_draw_campaign(camp, tier, seed, wd):
             hist, errors = collect(cfg, K, s0, pool)
             args = {"vectors": cfg["vectors"], "n": cfg["n"], "mode": cfg["mode"], "K": K, "axis": cfg["axis"],
                     "layout": cfg["layout"], "seed0": s0}
-            ev = {"call": "draws", "args": args,
+            ev = {"call": "draws", "recv": "", "res": "", "out": "ok", "pre": {}, "post": {}, "args": args,
                   "obs": {"hist": [[[list(v) for v in o], c] for o, c in sorted(hist.items())], "errors": errors}}
             stimuli.append({"id": i + 1, "init": {}, "steps": [["draws", args]], "pal": ["draws", "plain"], "tag": "draws",
                             "judge": camp["judge"], "driver": "draws"})
@@ -145,7 +145,7 @@ def redo(stim, wd):
     cfg = {k: args[k] for k in ("vectors", "n", "mode", "axis", "layout")}
     with cf.ProcessPoolExecutor(max_workers=16) as pool:
         hist, errors = collect(cfg, args["K"], args["seed0"], pool)
-    ev = {"call": "draws", "args": args,
+    ev = {"call": "draws", "recv": "", "res": "", "out": "ok", "pre": {}, "post": {}, "args": args,
           "obs": {"hist": [[[list(v) for v in o], c] for o, c in sorted(hist.items())], "errors": errors}}
     tr = {"id": stim.get("id", 1), "pal": ["draws", "plain"], "events": [ev]}
     return tr
